@@ -863,6 +863,11 @@ func (g *G) c07genPrel() {
 		s := []float64{0.5, 0.9, 0.3, 1.3}[r.Intn(4)]
 		Q = ring(f, ro*s, ro*s*0.7, n2, n1)
 	case 2: // annulus with an island in the hole vs a disc
+		if r.Intn(3) == 0 {
+			// the same at a scale of centimetres: the turning angles of shell and island are then EQUAL in float64 and
+			// Polygon.Invert has to choose the loop to invert by its tie-break (seeded change C07_7)
+			ro = math.Pow(10, -9+2.5*r.Float())
+		}
 		P = append(ring(f, ro, ro*0.6, n1, n2), c07regular(f, ro*0.3, 3+r.Intn(10), r.Float()))
 		Q = [][]s2.Point{c07regular(f, ro*[]float64{0.2, 0.4, 0.7, 1.1}[r.Intn(4)], 3+r.Intn(30), r.Float())}
 	case 3: // two shells vs one shell around both / around one
